@@ -1,5 +1,6 @@
 import GrVerif.Proofs.ShapeStream
 import GrVerif.Proofs.IndexPerm
+import GrVerif.Proofs.PassGid
 /-!
 # C03 — every returned segment exposes a well-formed glyph stream   (partial: left-to-right pipeline without bidi/justification)
 
@@ -169,6 +170,26 @@ theorem reversal_touches_links_only (s : Seg) (mark : Nat → Bool) : Pass.RevSa
 /-- the order `reverseSlots` produces: leading marks stay, the groups "base + its marks" come out in reverse order
 (slots 7 and 8 are marks) -/
 example : Pass.revOrder (fun i => i == 7 || i == 8) [7, 1, 8, 2, 3, 8] = [7, 3, 8, 2, 1, 8] := by decide
+
+/-- **glyph ids are real glyphs** (the third sentence of C03): on a font whose cmap and whose substitution classes name only glyphs below
+`N` – an executable test (`gidHypCheck`) the driver evaluates for every font of the correspondence check –, whatever its passes, state
+tables, rules, constraint and action programs (`put_glyph`, `put_subs`, `put_copy`, `insert`, `temp_copy`, `delete`, … in any order),
+every text, either direction and any fuel: every slot record of a segment the modelled pipeline returns – in particular every slot of
+the glyph stream – has a glyph id below `N`.  (The class map travels in the rule context and is never written: `Proofs/HeapGid.lean`,
+`PassGid.lean`.) -/
+theorem glyph_ids_are_real_glyphs (font : Pass.Font) (N cmapMax : Nat) (hcm : ∀ u, font.cmap u ≤ cmapMax)
+    (hchk : Pass.gidHypCheck font N cmapMax = true) (text : List Nat) (fuel : Nat) (dir : Nat) {c : Ctx} {ci : List Assoc.CI}
+    (e : Pass.shape font text fuel dir = .ok (some (c, ci))) : ∀ j, (c.seg.get j).gid < N := by
+  obtain ⟨h1, h2⟩ := Pass.gidHypCheck_spec hchk
+  exact Pass.shape_gid (by omega) font (fun u => by have := hcm u; omega) h2 text fuel dir e
+
+/-- each single opcode keeps the glyph ids below the glyph count (the induction step, exported for the audit) -/
+theorem every_opcode_keeps_glyph_ids {N : Nat} {K : Array (List Nat)} (hN : 0 < N) (hK : ClassesOK N K) : OpsPreserve (PG N K) := ops_PG hN hK
+
+/-- the hypotheses are satisfiable, and the clause is not true without them: a font whose class 0 names glyph 12 meets the test for
+`N = 13` and fails it for `N = 10` -/
+example : Pass.gidHypCheck { passes := #[], ipos := 0, classes := #[[3, 12], [1]], gattr := #[], gadv := #[], cmap := Pass.synthCmap } 13 9 = true ∧
+    Pass.gidHypCheck { passes := #[], ipos := 0, classes := #[[3, 12], [1]], gattr := #[], gadv := #[], cmap := Pass.synthCmap } 10 9 = false := by decide +kernel
 
 /-- every run of passes, from any well-formed segment (exported for the audit) -/
 theorem passes_keep_stream (passes : Array Pass.PassT) (c : Ctx) (lo hi fuel : Nat) (h : Pass.WF c.seg) {c' : Ctx}
